@@ -7,7 +7,9 @@
 //!   oracle: kind max_age max_conf price conf expo ema_price ema_conf publish_time
 //!           kind 0 = keep the Fixed price of the bank line (other fields ignored), 1 = Pyth push
 //!   extra ops: 20 b price conf ema_price ema_conf publish_time   rewrite bank b's Pyth account
-//!              23 b tag     set bank b's asset tag (fixture: 3 Kamino, 4 Drift, 5 Solend - a venue bank that already holds positions)
+//!              23 b tag cum last   set bank b's asset tag; a Pyth-priced bank retagged 4 also becomes DriftPythPull with a spot
+//!                           market account (cumulative_deposit_interest = cum, last_interest_ts = last)
+//!              (23 b tag)   set bank b's asset tag (fixture: 3 Kamino, 4 Drift, 5 Solend - a venue bank that already holds positions)
 //!              22 b state   set bank b's operational state (0 paused, 1 operational, 2 reduce-only, 3 killed)
 //!              21 b mode    mode 1: from now on present a different (decoy) Pyth account in place of
 //!                           bank b's oracle; mode 0: present the right one
@@ -360,7 +362,26 @@ fn run_inner(line: &str) -> String {
                 // fixture: the bank's asset tag (a venue bank that already holds positions)
                 let b = t.usize();
                 let tg = t.u8();
+                let cum = t.u128();
+                let last = t.u64();
                 h.w.update::<Bank>(&h.banks[b], |bk| bk.config.asset_tag = tg);
+                if tg == 4 && h.oracles[b].is_some() {
+                    // a Drift bank priced by Pyth: DriftPythPull = the Pyth account followed by the bank's spot market
+                    // (MinimalSpotMarket of drift-mocks: cumulative deposit interest = the exchange rate, last_interest_ts)
+                    use anchor_lang::Discriminator;
+                    use bytemuck::Zeroable;
+                    let mut m = drift_mocks::state::MinimalSpotMarket::zeroed();
+                    m.last_interest_ts = last;
+                    m.cumulative_deposit_interest = cum.to_le_bytes();
+                    let mut d = drift_mocks::state::MinimalSpotMarket::DISCRIMINATOR.to_vec();
+                    d.extend_from_slice(bytemuck::bytes_of(&m));
+                    let key = h.w.new_key();
+                    h.w.put(key, Acct::new(1_000_000_000, d, drift_mocks::ID));
+                    h.w.update::<Bank>(&h.banks[b], |bk| {
+                        bk.config.oracle_setup = OracleSetup::DriftPythPull;
+                        bk.config.oracle_keys[1] = key;
+                    });
+                }
                 Ok(())
             }
             22 => {
